@@ -45,6 +45,9 @@ type Script struct {
 
 var durs = []int{0, 0, 1, 5, 1000, 10000}
 
+// sdkNotifyTimeout is the deadline notifySessions (mcp/shared.go) puts on the sends behind AddRoots/RemoveRoots.
+const sdkNotifyTimeout = 10 * time.Second
+
 func genScript(rt *rapid.T) Script {
 	var s Script
 	s.Dir = rapid.SampledFrom([]string{"c2s", "c2s", "s2c"}).Draw(rt, "dir")
@@ -313,7 +316,17 @@ func runInBubble(s Script) (res vt.Result) {
 		case "progress":
 			nerr = cs.NotifyProgress(ctx, &mcp.ProgressNotificationParams{ProgressToken: fmt.Sprint(i), Progress: float64(i)})
 		case "roots":
+			t0 := time.Now()
 			client.AddRoots(&mcp.Root{URI: fmt.Sprintf("file:///r%d", i), Name: "r"})
+			if time.Since(t0) >= sdkNotifyTimeout {
+				// AddRoots gives every session 10 s to take the notification (notifySessions) and reports nothing.
+				// Over a stateless endpoint the POST is only answered once the handler has finished, so a handler
+				// of 10 s ties with that deadline: the sender gave the notification up (or might have), and a
+				// sender that abandoned its send has no "returned" to order later messages after.
+				res.Class("list_changed_send_hit_the_sdk_10s_deadline")
+				sentItems = append(sentItems, sent{kind: "abandoned", ordinal: k})
+				continue
+			}
 		case "sprogress":
 			nerr = ss.NotifyProgress(ctx, &mcp.ProgressNotificationParams{ProgressToken: fmt.Sprint(i), Progress: float64(i)})
 		case "slog":
